@@ -59,7 +59,7 @@ CLAIMED = {
             "Sequential histories up to 200 steps over events (3 ids, flush), non-gateable, no-id, clock advances around the expiry boundary, FlushAll, "
             "Close, with composition / send / gateable-composite faults, checked step by step against a GateModel; concurrent senders (2-4 tasks, "
             "FlushAll in between) are checked for conservation (each accepted event in exactly one composition, same id, real-time order) and panics; "
-            "every history up to length 4/5 over a 9-step alphabet, with and without Broker, is executed as well; the Broker field is assigned / replaced / cleared on the live filter; the library's own gated.Payload (real ComposeFrom) is checked by conservation over the composites; senders go through the REAL Broker with the filter emitting through the same Broker while setters, getters and Reopen run and Send contexts are cancelled at arbitrary steps (conservation over what the filter accepted / emitted; a flush composite must reach the next node); Expiration may be "never".",
+            "every history up to length 4/5 over a 9-step alphabet, with and without Broker, is executed as well; the Broker field is assigned / replaced / cleared on the live filter; the library's own gated.Payload (real ComposeFrom) is checked by conservation over the composites; senders go through the REAL Broker with the filter emitting through the same Broker while setters, getters and Reopen run and Send contexts are cancelled at arbitrary steps (conservation over what the filter accepted / emitted; a flush composite must reach the next node); Expiration may be math.MaxInt64 (never).",
             "Without a Broker a group that is neither composed nor visibly dropped makes the model uncertain; such runs are not judged further (counted).",
             "deterministic simulation: seeded histories, controlled clock, fault injection at the Sender/ComposeFrom seams, model oracle", "4 C11"),
     "C12": ("exploration",
